@@ -954,11 +954,19 @@ func (wsEngine) Exec(t *testing.T, cc any) *simrt.Result {
 				nRej++
 			default:
 				// maybe an emission delivered out of order / altered
-				sim.Violate("C12", "emission-altered-or-reordered", nil, "client received %s; next expected emission is %s", truncate(string(g.payload), 200), truncate(string(emitWire[min(ei, len(emitWire)-1)]), 200))
+				next := "none"
+				if ei < len(emitWire) {
+					next = truncate(string(emitWire[ei]), 200)
+				}
+				sim.Violate("C12", "emission-altered-or-reordered", nil, "client received %s; next expected emission is %s", truncate(string(g.payload), 200), next)
 			}
 		}
 		if ei < len(emitWire) {
-			sim.Violate("C12", "emission-lost", map[string]string{"type": c.Emit[ei].T}, "the handler emitted %d messages, the client received %d of them in order; missing %s", len(emitWire), ei, truncate(string(emitWire[ei]), 200))
+			typ := "NOTICE" // the burst of the stalled-peer scenario
+			if ei < len(c.Emit) {
+				typ = c.Emit[ei].T
+			}
+			sim.Violate("C12", "emission-lost", map[string]string{"type": typ}, "the handler emitted %d messages, the client received %d of them in order; missing %s", len(emitWire), ei, truncate(string(emitWire[ei]), 200))
 		}
 		if nRej != nBad && len(sim.Res.Violations) == 0 {
 			sim.Violate("C12", "rejection-count", nil, "%d frames were not deliverable, the client received %d rejections", nBad, nRej)
